@@ -186,7 +186,8 @@ pub fn dispatch(ctor: &str, p: &Value) -> Option<RawCommand> {
 /// Names of all `impl Command for X` in definitions.rs (scanned from the source at run time) so that a
 /// command without a dispatcher row / table row shows up as a coverage gap in the evidence.
 pub fn scan_definitions() -> Vec<String> {
-    let src = std::fs::read_to_string("/repo/mpd_client/src/commands/definitions.rs").unwrap_or_default();
+    let root = std::env::var("VERIF_REPO").unwrap_or_else(|_| "/repo".to_string());
+    let src = std::fs::read_to_string(format!("{root}/mpd_client/src/commands/definitions.rs")).unwrap_or_default();
     let mut out = vec![];
     for l in src.lines() {
         let l = l.trim();
